@@ -49,14 +49,28 @@ def plain(n):
     return not any(c in n for c in '\t\n\r')
 
 
+LONG5 = ['name', 'path', 'upper(name)', 'lower(name)', "concat(name, 'x')"]
+LONGSEL = LONG5 + ['size'] + ["concat(name, '%d')" % i for i in range(36)]      # one record of > 8 KiB, distinct columns
 COLSETS = [['name'], ['name', 'size'], ['size', 'name', 'is_dir'], ['name', 'size', 'path', 'ext', 'is_dir', 'mode'],
            ['path'], ['ext', 'name'], ['name', 'path', 'ext', 'size'], ['mode', 'is_dir', 'size', 'name', 'ext'], ['path', 'name'], ['size']]
 FORMATS = ['json', 'csv', 'html', 'tabs', 'lines']
 
 
+def long_names():
+    out = []
+    for k in range(0, 4):
+        out.append('a' * k + 'é' * 120)              # 240+k bytes, 2-byte characters at every alignment
+        out.append('b' * k + '中' * 80 + 'z')         # 3-byte characters
+        out.append('c' * k + '𝄞' * 60)               # 4-byte characters
+    out.append('q' * 255)
+    return out
+
+
 def dirs():
     names = all_names()
     return {
+        'long': D({n: F(len(n) % 7) for n in long_names()}),
+        'r1': D({'a<1>.txt': F(1), 'b&1': F(2), 'c"1': F(3)}), 'r2': D({'d,2': F(4), 'e\n2': F(5)}),
         'd0': D({}),
         'd1': D({'a<b>&"c\',d.txt': F(3)}),
         'd2': D({'x,y "z"\n.csv': F(1), "q<r>&amp;'s'\t.html": F(22)}),
@@ -66,6 +80,15 @@ def dirs():
 
 
 def groups(tier, seed):
+    # long records: the writers' internal buffers (1 KiB line buffer, 8 KiB csv buffer) are crossed inside one record
+    yield {'dir': 'long', 'path': 'stream', 'cases': [{'cols': 'long5', 'fmt': f, 'limit': None} for f in FORMATS] +
+           [{'cols': 'long42', 'fmt': f, 'limit': None} for f in FORMATS]}
+    yield {'dir': 'long', 'path': 'ordered', 'cases': [{'cols': 'long5', 'fmt': f, 'limit': 3} for f in FORMATS] +
+           [{'cols': 'long42', 'fmt': f, 'limit': None} for f in FORMATS]}
+    # several roots with the limit reached inside the first / exactly at the end of the first / inside the second
+    for path in ('stream', 'ordered'):
+        yield {'dir': 'r1, r2', 'path': path, 'cases': [{'cols': ci, 'fmt': f, 'limit': lim} for ci in (0, 1) for f in FORMATS
+                                                          for lim in (None, 1, 2, 3, 4, 5, 6)]}
     for d in ('d0', 'd1', 'd2', 'many', 'plain'):
         for path in ('stream', 'ordered', 'aggregate', 'grouped', 'grouped-ordered'):
             cases = []
@@ -194,11 +217,29 @@ def same_table(ref, got, ordered, fmt):
     if not ref:
         return True
     n = len(ref[0])
-    perms = [tuple(range(n))] if fmt != 'json' else itertools.permutations(range(n))
-    for pm in perms:
-        g = [tuple(r[i] for i in pm) for r in got]
-        if (g == ref) if ordered else (sorted(g) == sorted(ref)):
-            return True
+    if any(len(r) != n for r in got):
+        return False
+    if fmt != 'json':
+        return (list(got) == list(ref)) if ordered else (sorted(got) == sorted(ref))
+    # JSON objects lose the column order: find the column permutation by matching whole columns, then compare rows
+    key = (lambda col: tuple(col)) if ordered else (lambda col: tuple(sorted(col)))
+    refcols = [key([r[i] for r in ref]) for i in range(n)]
+    gotcols = [key([r[i] for r in got]) for i in range(n)]
+    perm, used = [], set()
+    for rc in refcols:
+        j = next((j for j in range(n) if j not in used and gotcols[j] == rc), None)
+        if j is None:
+            return False
+        used.add(j)
+        perm.append(j)
+    g = [tuple(r[j] for j in perm) for r in got]
+    if (g == list(ref)) if ordered else (sorted(g) == sorted(ref)):
+        return True
+    if n <= 6:      # identical columns may have been matched the wrong way round: small tables are searched completely
+        for pm in itertools.permutations(range(n)):
+            g = [tuple(r[i] for i in pm) for r in got]
+            if (g == list(ref)) if ordered else (sorted(g) == sorted(ref)):
+                return True
     return False
 
 
@@ -212,9 +253,9 @@ def eval_group(env, group, tier):
     try:
         d, path = group['dir'], group['path']
         for c in group['cases']:
-            cols = COLSETS[c['cols']]
+            cols = COLSETS[c['cols']] if isinstance(c['cols'], int) else (LONG5 if c['cols'] == 'long5' else LONGSEL)
             fmt = c['fmt']
-            if fmt in ('tabs', 'lines') and d in ('many', 'd2'):
+            if fmt in ('tabs', 'lines') and d in ('many', 'd2', 'r1, r2'):
                 continue
             if path == 'stream':
                 sel, tail, ordered = cols, '', False
